@@ -51,12 +51,14 @@ FailedAlgebra(t) ==
         Wnz == ISum(nz, LAMBDA k : p[k])
     IN
     IF t.raised # "" THEN {"raised"} ELSE
-    {x \in {"excess_law", "excess_denominator", "excess_not_exact_multiple", "mean_law", "inverse_raised", "inverse_is_not_identity", "inverse_denominator"} :
+    {x \in {"excess_law", "excess_denominator", "excess_not_exact_multiple", "mean_law", "inverse_raised", "inverse_is_not_identity", "inverse_denominator",
+            "earlier_results_changed_by_this_conversion"} :
        CASE x = "excess_not_exact_multiple" -> \E i \in 1..Tn : ~RowsOK(t.excess[i])
          [] x = "excess_denominator" -> \E i \in 1..Tn : \E j \in DOMAIN t.excess[i] : t.excess[i][j].D # MeanNum(p, i)
          [] x = "excess_law" -> \E i \in 1..Tn : DistTab(t.excess[i]) # {<<Dec(k, i), k[i] * p[k]>> : k \in {y \in DOMAIN p : y[i] > 0}}
          [] x = "mean_law" -> t.check_mean /\ \E i \in 1..Tn : ~t.mean[i].ok \/ t.mean[i].D # W \/ t.mean[i].n # MeanNum(p, i)
          [] x = "inverse_raised" -> t.inv_raised # ""
+         [] x = "earlier_results_changed_by_this_conversion" -> t.earlier_changed
          [] x = "inverse_denominator" -> t.inv_raised = "" /\ \E j \in DOMAIN t.inv : t.inv[j].D # Wnz
          [] x = "inverse_is_not_identity" -> t.inv_raised = "" /\
                  (~RowsOK(t.inv) \/ {r \in DistTab(t.inv) : r[2] # 0} # {<<k, p[k]>> : k \in nz})}
